@@ -26,14 +26,30 @@ def unordered_sym(p):
     if fl:
         from engine.symcore import SReal
         tables = [(b1, b2, [SReal.of(x) / 4 for x in v]) for b1, b2, v in tables]   # quarter counts through dtypes={"count": float}
-    chunks = ({"bin1_id": SArr(b1, "int64"), "bin2_id": SArr(b2, "int64"), "count": SArr(v, "float64" if fl else "int32")} for b1, b2, v in tables)
+    given = tables
+    extra = {}
+    if p.get("ensure_sorted"):
+        # "or sorting requested": records inside each chunk arrive in a solver-chosen order and ensure_sorted=True has to repair it
+        import itertools
+        given = []
+        for i, (b1, b2, v) in enumerate(tables):
+            perms = list(itertools.permutations(range(len(b1))))
+            k = concretize(sym_int(f"perm{i}", 0, len(perms) - 1)) if len(perms) > 1 else 0
+            given.append(tuple([col[j] for j in perms[k]] for col in (b1, b2, v)))
+        cover("chunk_unsorted", any(list(g[0]) != list(t[0]) or list(g[1]) != list(t[1]) for g, t in zip(given, tables)))
+        extra["ensure_sorted"] = True
+    chunks = ({"bin1_id": SArr(b1, "int64"), "bin2_id": SArr(b2, "int64"), "count": SArr(v, "float64" if fl else "int32")} for b1, b2, v in given)
+    if p.get("frames"):
+        # chunks are data frames whose row labels are a permutation of 0..n-1 (what df.sample(frac=1) or df.iloc[perm] leaves behind)
+        from engine import sympd
+        chunks = (sympd.DataFrame(ch, index=np.arange(len(ch["bin1_id"]))[::-1].copy()) for ch in list(chunks))
     out = scratch_file("c06_out.cool")
     cover("two_pass", mm < len(Ks))
     cover("empty_chunk", any(K == 0 for K in Ks))
     cover("repeated_pixel", or_(*[and_(x == y, xx == yy) for i in range(len(tables)) for j in range(i)
                                   for x, xx in zip(tables[i][0], tables[i][1]) for y, yy in zip(tables[j][0], tables[j][1])]))
     sc.create_cooler(out, bins, chunks, ordered=False, symmetric_upper=upper, mergebuf=buf, max_merge=mm,
-                     **({"dtypes": {"count": np.dtype("float64")}} if fl else {}))
+                     **({"dtypes": {"count": np.dtype("float64")}} if fl else {}), **extra)
     for cond, msg in validity_sym(out):
         prove(cond, "unordered output: " + msg)
     pix, attrs = read_pixels_sym(out)
@@ -58,13 +74,26 @@ def unordered_real(p, inputs):
     fl = p.get("float_counts")
     if fl:
         tables = [(b1, b2, [x / 4 for x in v]) for b1, b2, v in tables]
+    given = tables
+    extra = {}
+    if p.get("ensure_sorted"):
+        import itertools
+        given = []
+        for i, (b1, b2, v) in enumerate(tables):
+            perms = list(itertools.permutations(range(len(b1))))
+            k = inputs[f"perm{i}"] if len(perms) > 1 else 0
+            given.append(tuple([col[j] for j in perms[k]] for col in (b1, b2, v)))
+        extra["ensure_sorted"] = True
     chunks = ({"bin1_id": np.array(b1, dtype=np.int64), "bin2_id": np.array(b2, dtype=np.int64), "count": np.array(v, dtype=np.float64 if fl else np.int32)}
-              for b1, b2, v in tables)
+              for b1, b2, v in given)
+    if p.get("frames"):
+        import pandas as pd
+        chunks = (pd.DataFrame(ch, index=np.arange(len(ch["bin1_id"]))[::-1].copy()) for ch in list(chunks))
     out = scratch_file("c06_out.cool")
     import os
     before = set(os.listdir(os.path.dirname(out)))
     cooler.create_cooler(out, bins, chunks, ordered=False, symmetric_upper=upper, mergebuf=inputs["mergebuf"], max_merge=inputs["max_merge"],
-                         **({"dtypes": {"count": np.dtype("float64")}} if fl else {}))
+                         **({"dtypes": {"count": np.dtype("float64")}} if fl else {}), **extra)
     validity_real(out)
     exp = {}
     for b1, b2, v in tables:
@@ -91,6 +120,11 @@ def _cases(tier):
             out.append(dict(layout=list(layout), kind=kind, Ks=list(Ks), upper=upper))
     # a user dtype for the value column (float with fractional values) must survive both merge passes
     out.append(dict(layout=[2], kind="fixed", Ks=[1, 1, 1], upper=True, float_counts=True))
+    # "or sorting requested": chunks in arbitrary internal order with ensure_sorted=True, as dicts and as frames with permuted labels
+    out.append(dict(layout=[2], kind="fixed", Ks=[2, 2], upper=True, ensure_sorted=True))
+    out.append(dict(layout=[2], kind="fixed", Ks=[3, 1], upper=True, ensure_sorted=True, frames=True))
+    if tier != "quick":
+        out.append(dict(layout=[2, 1], kind="variable", Ks=[3, 2], upper=False, ensure_sorted=True, frames=True))
     return out
 
 
@@ -134,7 +168,7 @@ bp_sym, bp_real = both(breakpoints_body)
 
 
 CHECKS = [
-    Check("unordered", _cases, unordered_sym, unordered_real, labels=("two_pass", "empty_chunk", "repeated_pixel"),
+    Check("unordered", _cases, unordered_sym, unordered_real, labels=("two_pass", "empty_chunk", "repeated_pixel", "chunk_unsorted"),
           doc="create_cooler(ordered=False): chunks in arbitrary order, symbolic merge buffer and fan-in (one- and two-pass merge) "
               "== per-pixel sum of all records; output schema-valid",
           bounds=dict(quick="<=4 chunks, <=2 records each, n<=3 bins, mergebuf 1..R+1, max_merge 1..m+1", thorough="<=5 chunks, <=3 records each, n<=4"),
